@@ -347,6 +347,7 @@ def wf (j : Json) : Except String Json := do
 
 /-- text → lines of the label model (comments stripped, tokens; blank lines are instructions without tokens) -/
 def linesOfText (text : String) : List PV.Labels.Line :=
+  if text.isEmpty then [] else          -- the empty text is the empty program (no line), not one blank line
   (splitLines text).map (fun l =>
     let toks := tokenize l
     match labelOf toks with
@@ -593,6 +594,7 @@ def stripCompare (j : Json) : Except String Json := do
     let extra := [("covered", Json.bool covered), ("not_simple", Json.arr ((notSimple.take 8).map (fun n => Json.num (JsonNumber.fromNat n))).toArray),
       ("labels", Json.num (JsonNumber.fromNat (p.isLabel.filter id).length)), ("lines", Json.num (JsonNumber.fromNat p.prog.length))]
     let qprog := if stripped.isEmpty then [] else q.prog
+    let s := if labelled.isEmpty then [] else s
     if s.length != qprog.length then
       pure (Json.mkObj ([("verdict", Json.str "length"), ("model", Json.num (JsonNumber.fromNat s.length)), ("real", Json.num (JsonNumber.fromNat qprog.length))] ++ extra))
     else
